@@ -11,15 +11,38 @@ use std::path::Path;
 
 pub const BUDGET: usize = 6;
 
+/// faults that are far enough apart for the transfer to have made progress in between
+pub fn isolated(sc: &Scenario) -> bool {
+    let gap = 3 * (sc.ws as usize + 1) + 2;
+    let mut last: Option<usize> = None;
+    for (i, f) in sc.fates.iter().enumerate() {
+        if *f == Fate::Deliver {
+            continue;
+        }
+        if !matches!(f, Fate::Drop | Fate::Dup) {
+            return false;
+        }
+        if let Some(l) = last {
+            if i - l < gap {
+                return false;
+            }
+        }
+        last = Some(i);
+    }
+    true
+}
+
 pub fn judge(dir: &Path, sc: &Scenario, obs: &mut Obs) -> Judge {
     // precondition: fewer faults than the retry budget, so that no conformant
-    // implementation can see 6 failed receive attempts in a row (every fault costs at most one)
-    if sc.nfaults() >= BUDGET {
+    // implementation can see 6 failed receive attempts in a row (every fault costs at most one),
+    // or any number of drop/dup faults that are at least three windows of datagrams apart
+    if sc.nfaults() >= BUDGET && !isolated(sc) {
         obs.discard = Some("six or more faults: outside the property's precondition");
         return Ok(());
     }
     let (r, _findings, fa) = run_and_judge(dir, sc, obs, &[])?;
     obs.nontrivial = !r.hits.is_empty();
+    obs.class_if(r.hits.len() >= BUDGET, "six-or-more-isolated-faults-hit");
     for (_, f, d, _) in &r.hits {
         obs.class(match (f, d) {
             (Fate::Drop, Dir::ToPeer) => "drop-from-worker",
@@ -173,10 +196,33 @@ pub fn strategy() -> BoxedStrategy<Scenario> {
         .boxed()
 }
 
+/// many faults, never two within three windows of datagrams: the retry budget is about consecutive failures
+pub fn isolated_strategy() -> BoxedStrategy<Scenario> {
+    (prop_oneof![Just(Role::Sender), Just(Role::Receiver)], 1u16..=4, 20usize..60, 0usize..8, any::<u64>(), proptest::collection::vec((0usize..6, prop_oneof![3 => Just(Fate::Drop), 1 => Just(Fate::Dup)]), 6..12), any::<bool>())
+        .prop_map(|(role, ws, blocks, rem, seed, faults, gap_ack)| {
+            let blk = 8usize;
+            let gap = 3 * (ws as usize + 1) + 2;
+            let mut fates = vec![];
+            let mut pos = 1usize;
+            for (extra, f) in faults {
+                pos += gap + extra;
+                if fates.len() <= pos {
+                    fates.resize(pos + 1, Fate::Deliver);
+                }
+                fates[pos] = f;
+            }
+            let mut sc = Scenario::lossless(role, blk, ws, blocks * blk + rem, seed);
+            sc.fates = fates;
+            sc.gap_ack = gap_ack;
+            sc
+        })
+        .boxed()
+}
+
 pub fn run(ctx: &Ctx) {
     sim::init();
     ctx.set_level("fault_enumeration");
-    ctx.set_rule("both worker roles against a conformant model peer behind a fault network; faults = drop, duplicate, swap with the next datagram of the same direction, delay past one timeout, placed on any data-phase datagram of either direction (the handshake reply is never faulted). Exhaustive: every placement of 1 and 2 faults (thorough: also 3 drop/dup faults) over all emission slots of the transfer for windowsize 1..4 (thorough 1..5), 1/W-1/W/W+1/2W/2W+1 blocks with an empty/short/almost-full last block, two peer styles (RFC 7440 gap-ACK, silent-until-timeout). Random: up to 5 faults over the first 60 datagrams, windowsize up to 16 and 65534/65535, blksize 8..65464, non-dallying client. Oracle: the model peer ends with the complete, correct file and the worker ends successfully; exception only when the final ACK itself was faulted and its sender does not dally. Non-trivial = at least one fault actually hit a datagram; distinct = distinct (scenario, trace shape).");
+    ctx.set_rule("both worker roles against a conformant model peer behind a fault network; faults = drop, duplicate, swap with the next datagram of the same direction, delay past one timeout, placed on any data-phase datagram of either direction (the handshake reply is never faulted). Exhaustive: every placement of 1 and 2 faults (thorough: also 3 drop/dup faults) over all emission slots of the transfer for windowsize 1..4 (thorough 1..5), 1/W-1/W/W+1/2W/2W+1 blocks with an empty/short/almost-full last block, two peer styles (RFC 7440 gap-ACK, silent-until-timeout). Random: up to 5 faults over the first 60 datagrams, windowsize up to 16 and 65534/65535, blksize 8..65464, non-dallying client. A third part places 6..11 drop/dup faults at least three windows of datagrams apart (the budget is about consecutive failures, not failures per transfer). Oracle: the model peer ends with the complete, correct file and the worker ends successfully; exception only when the final ACK itself was faulted and its sender does not dally. Non-trivial = at least one fault actually hit a datagram; distinct = distinct (scenario, trace shape).");
     ctx.assume("precondition 'fewer than 6 consecutive failed receive attempts' is guaranteed by construction: at most 5 faults per transfer and a model peer whose retransmission timer equals the worker's timeout, so each fault costs at most one receive timeout; scenarios with >=6 faults are discarded, not judged");
     ctx.assume("model peer: acknowledges a duplicate of the last acknowledged block once per retransmitted window, repeats its last ACK / window on its own timeout (RFC 1350 conformant)");
     let dirs = DirPool::new(ctx, "c04");
@@ -187,6 +233,7 @@ pub fn run(ctx: &Ctx) {
     ctx.extra("exhaustive_max_windowsize", serde_json::json!(wmax));
     enumerate(ctx, "exh-fault-placements", &cases, true, |c, o| dirs.with(|d| judge(d, c, o)));
     explore(ctx, "random", ctx.tier.pick(40_000, 1_000_000), strategy, |c: &Scenario, o| dirs.with(|d| judge(d, c, o)));
+    explore(ctx, "isolated-faults", ctx.tier.pick(20_000, 400_000), isolated_strategy, |c: &Scenario, o| dirs.with(|d| judge(d, c, o)));
 }
 
 pub fn replay(ctx: &Ctx, part: &str, case: &Value) -> bool {
